@@ -3,13 +3,23 @@
 import json, os
 ROOT = os.path.dirname(os.path.dirname(os.path.abspath(__file__)))
 
-CHECKS = {
- # pid: (technique, level text, level note, design ref)
- 'C19': ('Coq proof of the Gallina model (inv/zmod/perfect_power/sieve/kronecker range) + extracted-model-vs-implementation correspondence',
-         'Theorems in coq/Props/C19.v hold for all integers (no bound); the model is tied to /repo by running the extracted model and impl_svc on the same inputs (exhaustive boxes + random big integers).',
-         'Kronecker = mathematical symbol is proved only on a bounded box (quadratic reciprocity unavailable); BigInt::nth_root is modelled by its floor-root specification; trusted base in evidence.',
-         'DESIGN.md section 4, C19'),
-}
+import importlib, sys
+sys.path.insert(0, os.path.join(ROOT, 'vp'))
+
+def load_claims():
+    """A property is claimed when vp/props/cXX.py exists and defines CLAIM = dict(technique=, text=, note=, ref=)."""
+    out = {}
+    for i in range(1, 21):
+        pid = 'C%02d' % i
+        if not os.path.exists(os.path.join(ROOT, 'vp', 'props', pid.lower() + '.py')): continue
+        try:
+            mod = importlib.import_module('props.' + pid.lower())
+        except Exception as e:
+            print('warning: cannot import props.%s: %r' % (pid.lower(), e)); continue
+        c = getattr(mod, 'CLAIM', None)
+        if c: out[pid] = (c['technique'], c['text'], c['note'], c.get('ref', 'DESIGN.md section 4, ' + pid))
+    return out
+CHECKS = load_claims()
 PENDING = {}
 ALL = ['C%02d' % i for i in range(1, 21)]
 
